@@ -726,6 +726,123 @@ def run_generic_lines(cx, exe, drv, cases):
     return stats
 
 
+# ------------------------------------------------------------------ large batches (n-ary union / subtract around kMaxUnionSize)
+def max_union_size():
+    m = re.search(r"constexpr\s+size_t\s+kMaxUnionSize\s*=\s*(\d+)\s*;", open(os.path.join(vp.REPO, "src/csg_tree.cpp")).read())
+    return int(m.group(1)) if m else None
+
+
+def gb_programs(K, thorough):
+    """FIXED list (no seed): n unit lattice cubes on a sparse grid + bars/slabs overlapping many of them, the bars placed
+    first / in the middle / last in the operand list, operand counts on both sides of kMaxUnionSize = K, evaluated by
+    BatchBoolean and by lazy +/- chains."""
+    out = []
+    sizes = [K - 30, K + 25] + ([K + 90, K - 1, K + 1] if thorough else [])
+    for n in sizes:
+        G = int(n ** 0.5) + 1
+        rows = (n + G - 1) // G
+        bar = ((0, 0, 0), (2 * G - 1, 1, 1))                      # along x through row 0
+        slab = ((2 * (G // 2), 0, 0), (2 * (G // 2) + 1, 2 * (rows - 1), 1))   # along y through a middle column
+        for posname, pos in (("first", 0), ("middle", n // 2), ("last", n + 5)):
+            combos = [("U", "batch"), ("U", "chain"), ("S", "batch")] + ([("S", "chain")] if thorough else [])
+            for kind, via in combos:
+                bars = [(pos, bar)] if (n + len(out)) % 2 == 0 else [(pos, bar), (pos, slab)]
+                out.append({"kind": kind, "via": via, "n": n, "G": G, "bars": bars, "pos": posname})
+    return out
+
+
+def gb_canon(g):
+    return "GB%s(%s,n=%d,G=%d,bars@%s=%s)@lazy" % (g["kind"], g["via"], g["n"], g["G"], g["pos"],
+            "+".join("[%d,%d,%d:%d,%d,%d]" % (b[1][0] + b[1][1]) for b in g["bars"]))
+
+
+def gb_prefix(g):
+    return "GB %s %s %d %d %d %s" % (g["kind"], g["via"], g["n"], g["G"], len(g["bars"]),
+            " ".join("%d %d %d %d %d %d %d" % ((b[0],) + b[1][0] + b[1][1]) for b in g["bars"]))
+
+
+def gb_inside(g, x, y, z):
+    """the set formula for cell [x,x+1)x[y,y+1)x[z,z+1)  (Python: these programs are too large for the cubic-grid
+    lattice_check; the extracted classifier and exact volume are still what judges the output)"""
+    if z != 0:
+        return False
+    n, G = g["n"], g["G"]
+    cube = x >= 0 and y >= 0 and x % 2 == 0 and y % 2 == 0 and x // 2 < G and (y // 2) * G + x // 2 < n
+    inbar = any(b[1][0][0] <= x < b[1][1][0] and b[1][0][1] <= y < b[1][1][1] for b in g["bars"])
+    u = cube or inbar
+    if g["kind"] == "U":
+        return u
+    rows = (n + G - 1) // G
+    plate = -1 <= x < 2 * G + 1 and -1 <= y < 2 * rows + 1
+    return plate and not u
+
+
+def run_big_batches(cx, exe, drv, K, thorough):
+    import struct
+    progs = gb_programs(K, thorough)
+    lines = ["L g%d 0 %s" % (i, gb_prefix(g)) for i, g in enumerate(progs)]
+    kl = lambda l: l.split()[1] if l.startswith("L ") else None
+    ko = lambda l: l.split()[1] if l.startswith("ST ") else None
+    out, crashes = vp.run_cases(exe, lines, kl, ko, timeout=1700)
+    keyof = lambda g: "lattice-program:" + hashlib.sha1(gb_canon(g).encode()).hexdigest()[:12]
+    for cl, rc, err in crashes:
+        i = int(cl.split()[1][1:])
+        cx.violation(keyof(progs[i]), "large batch program crashed or hung (rc=%s): %s" % (rc, gb_canon(progs[i])),
+                     {"program": gb_canon(progs[i]), "harness_line": cl})
+    half = lambda v: "x" + struct.pack(">d", v + 0.5).hex()
+    dl, pts, status = [], {}, {}
+    for l in out.splitlines():
+        if l.startswith("MESH rg"):
+            cid = l.split(" ", 2)[1][1:]
+            i = int(cid[1:])
+            g = progs[i]
+            rows = (g["n"] + g["G"] - 1) // g["G"]
+            rng = random.Random(1000 + i)
+            cells = set((x, 0, 0) for x in range(-1, 2 * g["G"] + 1))                 # the bar's row
+            cells |= set((2 * (g["G"] // 2), y, 0) for y in range(-1, 2 * rows + 1))  # the slab's column
+            cells |= set((2 * (k % g["G"]), 2 * (k // g["G"]), 0) for k in rng.sample(range(g["n"]), 40))   # cubes, early and late operands
+            cells |= set((2 * (k % g["G"]), 2 * (k // g["G"]), 0) for k in range(g["n"] - 40, g["n"]))
+            cells |= set((rng.randrange(-1, 2 * g["G"] + 1), rng.randrange(-1, 2 * rows + 1), rng.choice([0, 0, 0, 1, -1])) for _ in range(30))
+            cells = sorted(cells)
+            pts[cid] = cells
+            dl += [l, "PTS p%s %d %s" % (cid, len(cells), " ".join("%s %s %s" % (half(x), half(y), half(z)) for x, y, z in cells)),
+                   "WIND %s p%s r%s" % (cid, cid, cid), "VOL %s r%s" % (cid, cid), "DROP r%s p%s" % (cid, cid)]
+        elif l.startswith("ST g"):
+            t = l.split()
+            status[t[1]] = int(t[2])
+    rc, dout, derr = vp.sh2([drv], input="\n".join(dl) + "\n", timeout=1700)
+    if rc != 0:
+        cx.broke("corr:C02/driver", "large batches: exact checker exited %d: %s" % (rc, derr[-300:]))
+    W, V = {}, {}
+    for l in dout.splitlines():
+        t = l.split()
+        if t[0] == "W":
+            W[t[1]] = [int(x) for x in t[4:]]
+        elif t[0] == "V":
+            V[t[1]] = Fraction(int(t[4], 16), 1 << (3 * int(t[3]))) / 6
+    ok = 0
+    for i, g in enumerate(progs):
+        cid, can, key = "g%d" % i, gb_canon(g), keyof(g)
+        rep = {"program": can, "harness_line": lines[i], "operands": g["n"] + len(g["bars"]), "kMaxUnionSize": K}
+        if cid not in W or cid not in V:
+            if not any(cl.split()[1] == cid for cl, _, _ in crashes):
+                cx.broke("corr:C02/batch-missing", "no verdict for " + can)
+            continue
+        if status.get(cid, 0) != 0:
+            cx.violation(key, "large batch program returned status %d: %s" % (status[cid], can), rep)
+            continue
+        rows = (g["n"] + g["G"] - 1) // g["G"]
+        want_vol = sum(gb_inside(g, x, y, 0) for x in range(-1, 2 * g["G"] + 1) for y in range(-1, 2 * rows + 1))
+        bad = [(c, w) for c, w in zip(pts[cid], W[cid]) if w != int(gb_inside(g, *c))]
+        if bad or V[cid] != want_vol:
+            rep.update({"volume_got": float(V[cid]), "volume_expected": want_vol, "misclassified_cells": bad[:10]})
+            cx.violation(key, "batch program %s (%d operands, kMaxUnionSize %d): exact volume %s instead of %d, %d of %d sampled voxel centres misclassified"
+                         % (can, g["n"] + len(g["bars"]), K, V[cid], want_vol, len(bad), len(pts[cid])), rep)
+        else:
+            ok += 1
+    return len(progs), ok
+
+
 # ------------------------------------------------------------------ kernel correspondence
 KTAGS = ["S01F", "S01B", "K02F", "K02B", "K11", "K12F", "K12B"]
 
@@ -1084,6 +1201,16 @@ def run(cx):
            % (len(xprogs), dist["transformed_same_op_depth>=3_lazy"]))
     if xprogs:
         cx.sample({"program": prog_key(xprogs[0][2], xprogs[0][1])[1], "prefix": prefix(xprogs[0][2])})
+    # (ii'') n-ary unions / subtractions with operand counts on both sides of kMaxUnionSize (BatchUnion partitions only the
+    #        last kMaxUnionSize children per pass); fixed list
+    K = max_union_size()
+    cx.obligation("translate:csg_tree.cpp kMaxUnionSize", K is not None and 10 <= K <= 5000, "cannot read kMaxUnionSize from csg_tree.cpp: %r" % K)
+    if K is not None and 10 <= K <= 5000:
+        nb, okb = run_big_batches(cx, exe, drv, K, not cx.quick())
+        total += nb
+        nontriv += nb
+        dist["large_batch"] = nb
+        cx.log("large batches around kMaxUnionSize=%d: %d programs, %d accepted" % (K, nb, okb))
     # search: a proof obligation / the translator no longer checks -> spend extra budget on seed-dependent nested programs
     # (the coincident-geometry regime every proved kernel is about) to turn the broken tie into a concrete failing input
     if cx.broken:
